@@ -19,9 +19,15 @@ SheetNames == {"S1", "My & Sheet", "O'Brien"}
 CellPool   == <<"A1", "B2", "C3">>
 ExtUrls    == {"http://a.example/?x=1&y=2", "http://b.example/"}
 LocUrls    == {"'My & Sheet'!A1"}
-AuthorPool == <<"Ann", "B&b <c>">>
+AuthorPool == <<"Ann", " B&b <c>\t">>            \* the second one with blanks at both ends
 CommentRC  == {<<2, 2>>, <<7, 3>>}
-Texts      == {"x & y <z>"}
+Run(t, b) == [t |-> t, b |-> b]
+(* comment texts as run lists: one plain run; the layout applications write (bold "Author:" run, then a run that   *)
+(* starts with a line feed and ends with a blank and a tab, then a run of white space only)                         *)
+Texts      == { <<Run("x & y <z>", FALSE)>>,
+                <<Run("Ann:", TRUE), Run("\nplease check this value \t", FALSE), Run(" ", FALSE)>> }
+Tips       == {"", " tip & <more> "}
+Codes      == {"Sheet1", "Tabelle_1"}
 MergePool  == {"A1:B2", "D4:E9"}
 N(nm, loc, ref, addr, hid) == [name |-> nm, local |-> loc, ref |-> ref, addr |-> addr, hidden |-> hid]
 (* the same name in several scopes (global, local to sheet 1, local to sheet 2), and names that differ only in case *)
@@ -79,20 +85,22 @@ MCAddMerge == /\ L
 MCAddLink ==
   /\ L
   /\ \/ \E i \in Pick(Sh), k \in Pick(DOMAIN CellPool), u \in Pick(ExtUrls) :
-          AddLink(i, CellPool[k], u, FALSE) /\ LogB([a |-> "AddLink", s |-> i, cell |-> CellPool[k], url |-> u, loc |-> FALSE])
+          \E tp \in Pick(Tips) : AddLink(i, CellPool[k], u, FALSE, tp)
+               /\ LogB([a |-> "AddLink", s |-> i, cell |-> CellPool[k], url |-> u, loc |-> FALSE, tip |-> tp])
      \/ \E i \in Pick(Sh), k \in Pick(DOMAIN CellPool), u \in Pick(LocUrls) :
-          AddLink(i, CellPool[k], u, TRUE) /\ LogB([a |-> "AddLink", s |-> i, cell |-> CellPool[k], url |-> u, loc |-> TRUE])
+          AddLink(i, CellPool[k], u, TRUE, "") /\ LogB([a |-> "AddLink", s |-> i, cell |-> CellPool[k], url |-> u, loc |-> TRUE, tip |-> ""])
 MCAddComment ==
   /\ L
   /\ \E i \in Pick(Sh), rc \in Pick(CommentRC), k \in Pick(0..Len(AuthorPool)), tx \in Pick(Texts) :
         LET au == IF k = 0 THEN "" ELSE AuthorPool[k] IN
-        AddComment(i, rc[1], rc[2], au, tx)
-        /\ LogB([a |-> "AddComment", s |-> i, r |-> rc[1], c |-> rc[2], author |-> au, text |-> tx])
+        AddComment(i, rc[1], rc[2], au, CatRuns(tx, 1))
+        /\ LogB([a |-> "AddComment", s |-> i, r |-> rc[1], c |-> rc[2], author |-> au, runs |-> tx])
 MCAddName == /\ L
              /\ \E h \in Pick(0..Len(wb.sheets)), n \in Pick(NamePool) : AddName(h, n) /\ LogB([a |-> "AddName", home |-> h] @@ n)
 MCAddDv == R /\ \E i \in Pick(Sh), d \in Pick(DvPool) : AddDv(i, d) /\ LogB([a |-> "AddDv", s |-> i] @@ d)
 MCAddCf == R /\ \E i \in Pick(Sh), x \in Pick(CfPool) : AddCf(i, x) /\ LogB([a |-> "AddCf", s |-> i] @@ x)
 MCSetAf == R /\ \E i \in Pick(Sh), rg \in Pick({"A1:C10"}) : SetAf(i, rg) /\ LogB([a |-> "SetAf", s |-> i, range |-> rg])
+MCSetCode == R /\ \E i \in Pick(Sh), cn \in Pick(Codes) : SetCode(i, cn) /\ LogB([a |-> "SetCodeName", s |-> i, code |-> cn])
 MCSetTab == /\ R
             /\ \E i \in Pick(Sh), c \in Pick({"FF123456", "FFFF0000"}) : SetTab(i, c) /\ LogB([a |-> "SetTab", s |-> i, argb |-> c])
 MCAddView == /\ R
@@ -115,7 +123,7 @@ MCSaveLoad ==
      /\ Log([a |-> "SaveLoad", light |-> (steps % 2 = 1)])
 
 MCNext == \/ MCAddSheet \/ MCRename \/ MCRemoveSheet \/ MCSetState \/ MCSetActive \/ MCAddMerge \/ MCAddLink \/ MCAddComment
-          \/ MCAddName \/ MCAddDv \/ MCAddCf \/ MCSetAf \/ MCSetTab \/ MCAddView \/ MCSetPs \/ MCSetHf \/ MCSetProt
+          \/ MCAddName \/ MCAddDv \/ MCAddCf \/ MCSetAf \/ MCSetCode \/ MCSetTab \/ MCAddView \/ MCSetPs \/ MCSetHf \/ MCSetProt
           \/ MCSetWbProt \/ MCSaveLoad
 
 MCSpec == MCInit /\ [][MCNext]_mcvars
